@@ -747,8 +747,10 @@ pub fn check_type(
                     None => {
                         // References to undefined objects are treated
                         // as references to the null object.
+                        // As above, the indirect requirement has been met.
                         let obj = o.place(PDFObjT::Null(()));
-                        state.return_check((Rc::new(obj), tc));
+                        let chk = Rc::new(TypeCheck::Rep(c.allow_indirect()));
+                        state.return_check((Rc::new(obj), chk));
                     },
                 }
             },
